@@ -39,7 +39,7 @@ def run(prog: Program, rep, thorough: bool) -> None:
     A.reset()
     rep.rule('C02.R1', 'no elevation returned unless its own measurement met the accuracy', 2)
     rep.rule('C02.R2', 'failed attempt leaves the stored zero untouched', 2)
-    rep.rule('C02.R3', 'stored zero round-trips to the elevation found', 1)
+    rep.rule('C02.R3', 'stored zero round-trips to the elevation found; searched on the shot itself', 2)
     rep.rule('C02.R4', 'aim-point geometry', 3)
     tc = prog.module(C.M_TC)
     za = prog.func(C.M_TC, 'TrajectoryCalc.zero_angle')
@@ -212,7 +212,10 @@ def run(prog: Program, rep, thorough: bool) -> None:
                  f'set_weapon_zero stores {[norm(s) for s in stores]}: the stored zero can change before the search has succeeded')
 
     # ---- R3 ------------------------------------------------------------------------------------
+    searched: List[object] = []
+
     def za_hook(ev_, func, args, kwargs, st, self_val):
+        searched.append((args[0] if args else kwargs.get(func.positional[1]), dict(st.heap)))
         return C.mk_quantity(ev_, st, prog, 'Angular', 'E', 'Radian')
     ev = Evaluator(prog, hooks={'call:TrajectoryCalc.zero_angle': za_hook, **C.pref_hooks(prog)})
     st = State()
@@ -223,7 +226,8 @@ def run(prog: Program, rep, thorough: bool) -> None:
     shot = ev.new_inst(st, shot_c, {'look_angle': C.mk_quantity(ev, st, prog, 'Angular', 'L', 'Radian'),
                                     'relative_angle': C.mk_quantity(ev, st, prog, 'Angular', 0, 'Radian'),
                                     'cant_angle': C.mk_quantity(ev, st, prog, 'Angular', 0, 'Radian'),
-                                    'weapon': weapon, 'ammo': NONE, 'atmo': NONE, '_winds': NONE})
+                                    'weapon': weapon, 'ammo': SymObj('ammo_given'), 'atmo': SymObj('atmo_given'),
+                                    '_winds': SymObj('winds_given')})
     calc_c = prog.cls(C.M_IF, 'Calculator')
     calc = ev.new_inst(st, calc_c, {'_calc': ev.new_inst(st, prog.cls(C.M_TC, 'TrajectoryCalc'), {}), '_config': NONE})
     try:
@@ -231,6 +235,34 @@ def run(prog: Program, rep, thorough: bool) -> None:
         be = ev.getattr(shot, 'barrel_elevation', st, Ctx(prog.module(C.M_COND), None, None, 0))
     except Undecided as exc:
         raise AnalysisError(f'set_weapon_zero round trip: {exc}') from exc
+    # the shot searched on is the caller's shot - or a copy that agrees with it in everything the zero depends on
+    for sv, heap_ in searched:
+        if isinstance(sv, Inst) and sv.oid == shot.oid:
+            rep.ok('C02.R3', swz.where, 'the zero is searched on the caller\'s own shot (its winds, atmosphere, ammunition, look angle)')
+            continue
+        if not (isinstance(sv, Inst) and sv.cls is shot_c):
+            raise AnalysisError(f'the zero is searched on {sv!r}')
+        h_new, h_old = heap_.get(sv.oid, {}), st.heap[shot.oid]
+        diff = []
+        for fld, label in (('_winds', 'winds'), ('atmo', 'atmosphere'), ('ammo', 'ammunition'), ('weapon', 'weapon')):
+            a_, b_ = h_new.get(fld), h_old.get(fld)
+            if isinstance(a_, Cond) and a_.test.kind == 'truthy' and isinstance(a_.a, SymObj) and isinstance(b_, SymObj) \
+                    and a_.a.path == b_.path:
+                a_ = a_.a              # `given or default`: the given object when there is one
+            same = (isinstance(a_, SymObj) and isinstance(b_, SymObj) and a_.path == b_.path) or \
+                   (isinstance(a_, Inst) and isinstance(b_, Inst) and a_.oid == b_.oid)
+            if not same:
+                diff.append(label)
+        la_new = C.raw_of(ev, State({}, heap_), h_new.get('look_angle'))
+        if la_new is None or not la_new.equals(A.sym('L')):
+            diff.append('look angle')
+        if diff:
+            rep.fail('C02.R3', prog.module(C.M_IF).path, bet.node.lineno, bet.qualname, 'searched-shot',
+                     f'the zero is searched on a copy of the shot that does not carry its {", ".join(diff)}: the elevation '
+                     f'found is not the one that hits the aim point when the shot itself is fired (head or tail wind, other '
+                     f'atmosphere)')
+        else:
+            rep.ok('C02.R3', swz.where, 'the zero is searched on a copy that carries the shot\'s winds, atmosphere, ammunition, weapon and look angle')
     raw = C.raw_of(ev, st, be)
     stored = C.raw_of(ev, st, st.heap[weapon.oid].get('zero_elevation'))
     if raw is not None and raw.equals(A.sym('E')) and stored is not None and stored.equals(A.sym('E') - A.sym('L')):
